@@ -32,6 +32,7 @@ def run(ctx):
         ctx.guard("C07", "expand-step", lambda: rle.expand_step(ctx, prog))
         ctx.guard("C07", "expand-copy", lambda: rle.expand_copy(ctx, prog))
         ctx.guard("C07", "summaries", lambda: summary.check(ctx, prog, 'hash_dual::', floor=10))
+        ctx.guard("C07", "path summaries", lambda: summary.check_paths(ctx, prog, 'hash_dual::', floor=4))
         ctx.guard("C07", "traits", lambda: vis.trait_census(ctx, prog, scope='hash_dual::'))
         if c == "unchecked":
             ctx.guard("C07", "twins", lambda: features.twins(ctx, prog, scope='FuzzyHashDualData', floor=2))
